@@ -143,7 +143,7 @@ func runC06(c *Ctx, r *Run) {
 			found := false
 			inLoop := false
 			for _, g := range gs {
-				if g.decider != "bytes.Equal" {
+				if !decIs(g.decider, "bytes.Equal") {
 					continue
 				}
 				hasQ, hasH := false, false
@@ -344,11 +344,13 @@ func runC06(c *Ctx, r *Run) {
 		if len(updates) == 1 && updates[0].Parent() == rcv {
 			mu := updates[0]
 			// value = Sum() of a hash state h; h received WriteAny(...msg.Hash()...) in a slice loop over PartyIDs()
-			sumCall, _ := mu.Value.(*ssa.Call)
+			// (the hashing may live in a helper of the handler that returns the digest)
+			sumCall, _ := resultThroughHelpers(mu.Value).(*ssa.Call)
 			okSum := sumCall != nil && sumCall.Call.StaticCallee() != nil && sumCall.Call.StaticCallee().Name() == "Sum"
 			okWrite, okOrder, okAllParties := false, true, false
 			if okSum {
 				hs := sumCall.Call.Args[0]
+				rcv := sumCall.Parent()
 				allInstrs(rcv, func(in ssa.Instruction) {
 					call, ok := in.(*ssa.Call)
 					if !ok || call.Call.StaticCallee() == nil || call.Call.StaticCallee().Name() != "WriteAny" || call.Call.Args[0] != hs {
@@ -406,7 +408,7 @@ func runC06(c *Ctx, r *Run) {
 			// only after all present: dominated by the loop that returns false on a missing broadcast
 			present := false
 			for _, g := range rejectGuards(rcv) {
-				if strings.HasPrefix(g.decider, "lookup") && g.iff != nil && instrReaches(g.iff, mu) {
+				if decHasPrefix(g.decider, "lookup") && g.iff != nil && instrReaches(g.iff, mu) {
 					for _, f := range g.fields {
 						if strings.HasPrefix(f, "recv.broadcast") || strings.HasPrefix(f, "recv."+st.Field(queueFs[0]).Name()) || strings.HasPrefix(f, "recv."+st.Field(queueFs[1]).Name()) {
 							present = true
